@@ -118,12 +118,17 @@ def run_c16(tier):
                   "'$' and '>'/'<', coarse fragments with masses) x target weights x seeds; every returned molecule is decomposed "
                   "into growth events in membership order and replayed through Sampler.tla (one TLC state per event), and seen as "
                   "a resolved molecule (copies = coarse nodes) for the copy/numbering/valence clauses; SamplerMC explores all "
-                  "growth trajectories of small configurations; non-trivial = at least two growth steps")
+                  "growth trajectories of small configurations; plus every state of OpenBonds.tla (find_open_bonds on every target set) and its "
+                  "complementarity table (find_complementary_bonding_descriptor) replayed into cgsmiles_utils (X_OpenBonds_*); "
+                  "non-trivial = at least two growth steps")
     run_sampler_mc(check, tier)
     recs, rrecs = observe_all(check, tier)
     verdicts = validate_sampler(check, recs)
     judge_sampler(check, recs, verdicts, C16_STEP)
     judge_resolve_like(check, "C16", rrecs, C16_RES)
+    # beyond the listed clauses: the open-bond bookkeeping the sampler is built on, spec -> code (OpenBonds.tla)
+    from . import openbonds
+    openbonds.run_openbonds(check, tier)
     return check.finish()
 
 
